@@ -36,8 +36,44 @@ def run(prog, chk):
     other_is_whole_input_event(prog, chk)
     from props import C03
     C03.top_level_predicate(prog, chk)
+    C03.qualified_names(prog, chk)  # start and end tag carry the same (qualified) name
+    no_double_hyphen_literals(prog, chk)
     from props import C01
     C01.utf8_boundary(prog, chk)  # output is UTF-8 because every input event was validated (pass-through carries bytes along)
+
+
+def no_double_hyphen_literals(prog, chk):
+    """comments are correctly delimited: generated comment text is assembled from library string literals and format
+    templates, none of which may contain `--` (illegal inside an XML comment).  Text that comes from the *document*
+    (the `_` attributes, echoed source) is the known finding F13; this rule keeps the library's own words clean."""
+    from sa import hirq
+
+    n = 0
+    bad = []
+    for bid, h in prog.hir.items():
+        b = prog.bodies.get(bid)
+        if b is None or b.unit != "svgdx-lib" or not isinstance(h, dict) or b.path.startswith("svgdx::cli::") or b.path.startswith("svgdx::server::"):
+            continue
+        for node in hirq.walk(h.get("body")):
+            if node.get("k") != "Lit" or not isinstance(node.get("lit"), dict):
+                continue
+            texts = []
+            if isinstance(node["lit"].get("str"), str):
+                texts.append(node["lit"]["str"])
+            if "bytes" in node["lit"]:
+                try:
+                    texts += [v for kind, v in hirq.decode_template(node["lit"]["bytes"]) if kind == "lit"]
+                except Exception:  # noqa: BLE001 - a byte string that is not a format template
+                    pass
+            for t in texts:
+                n += 1
+                if "--" in t:
+                    bad.append((b, node.get("line"), t))
+    chk.floor("A14.comment-vocabulary", n, 800, "string literal / format template piece in the library")
+    for (b, line, t) in bad:
+        chk.bad("A14.comment-vocabulary", f"{b.short}:{t[:24]}", b.where(0, line), f"{b.short} contains the literal {t!r}: `--` may not occur inside an XML comment, and the library builds its generated comments (version / config header, debug echo) from its own literals and format templates - an output with such a comment is rejected by an XML parser")
+    if not bad:
+        chk.ok("A14.comment-vocabulary", "scan", "-", f"{n} literals and template pieces scanned, none contains `--`")
 
 
 def no_duplicate_attrs(prog, chk):
